@@ -19,11 +19,20 @@
   c14b <tag> <ids> <recs>                               LoadBisyncLatestStartRecord over the slots of recs
      →  #tag best=<rec|-> n=<records of the ids>
 
+  c14p <tag> <ver> <ids> <root> <frontier> <journal> <index> <miss> <seq> <off> <fail>
+        RedisOutput.StartPoint of a LIVE process (Model/FrontierProc.lean `pstart`): the memory of the RedisOutput
+        before the call (miss = bisyncMissRunID hex | "-", seq = bisyncSeq, off = bisyncOffset) and the target
+        namespace; fail = 0 | k (the k-th write request of the start gets an error reply)
+     →  #tag start=<start> n=<requests> fast=<0|1> miss=<hex|-> mem=<bisyncSeq>/<bisyncOffset>    (after the call)
+        #tag <request>                                                                      one per request (fail = 0)
+        with fail = k on a start that purges:  #tag start=err fast=0 miss=<hex|-> mem=<seq>/<off>
+
   c14c <tag> <ver> <runid> <seq> <offset> <t0> <events>    bisyncFrontierCoordinator
         events = ev{;ev};  ev = r<rec>@<now ns> (onCommitted) | f@<now ns> (flush)
      →  #tag <frontier seq> <frontier offset> p=<pending> a=<advanced> | <request> | …      one line per event
 -/
 import GunYu.Model.Frontier
+import GunYu.Model.FrontierProc
 namespace GunYu.Drive.C14
 open GunYu GunYu.Frontier
 
@@ -93,6 +102,43 @@ def renderStart (tag mode : String) (ver : Bytes) (ids : List Bytes) (ns : NS) :
       s!"#{tag} {reqStr r} next={startStr (startOf mode ver ns' ids).1}" :: go ns' rest
   s!"#{tag} start={startStr st} n={rs.length}" :: go ns rs
 
+def hexOrDash (b : Bytes) : String := if b.isEmpty then "-" else Hex.encode b
+
+def memStr (m : Option Mem) : String :=
+  match m with
+  | none => "miss=- mem=0/-1"
+  | some m => s!"miss={hexOrDash m.miss} mem={m.seq}/{m.off}"
+
+/-- StartPoint of a live process: `pstart`, all its requests applied (`apply`), then what the process holds
+    when the call has returned (`stop` right away: memory = the coordinator's initial frontier); with
+    `fail = k`: k-1 requests applied, the k-th fails (`stop` with the purge outstanding). -/
+def renderProc (tag : String) (ver : Bytes) (ids : List Bytes) (ns : NS) (m : Mem) (fail : Nat) : List String :=
+  let W : World := { e := fun _ => 0, rid := [], ids := ids, ver := ver }
+  let s0 : PSys := { t := { ns := ns }, mem := some m }
+  match ns.root with
+  | none => [s!"#{tag} start=empty {memStr (pstep W s0 (.sys .start)).mem}"]
+  | some root =>
+    let s1 := pstep W s0 (.sys .start)
+    let fast := (fastPath root ids m).isSome
+    let db : Nat := match fastPath root ids m with
+      | some (db, _, _, _) => db
+      | none => match (startFrontier ver ns ids).1 with
+        | .point db _ _ _ => db
+        | .empty => 0
+    let st := match s1.t.run with
+      | some r => s!"{db}:{Hex.encode r.coord.frontier.runId}:{r.coord.frontier.offset}:{r.startSeq}"
+      | none => "none"
+    let purge := match s1.t.run with
+      | some r => r.startSeq == 0 && !s1.t.rq.isEmpty
+      | none => false
+    if fail > 0 && purge then
+      let s2 := prunSteps W s1 ((List.replicate (fail - 1) (PStep.sys .apply)) ++ [.stop])
+      [s!"#{tag} start=err fast=0 {memStr s2.mem}"]
+    else
+      let s2 := prunSteps W s1 ((List.replicate s1.t.rq.length (PStep.sys .apply)) ++ [.stop])
+      s!"#{tag} start={st} n={s1.t.rq.length} fast={if fast then 1 else 0} {memStr s2.mem}"
+        :: (if fail > 0 then [] else s1.t.rq.map (fun r => s!"#{tag} {reqStr r}"))
+
 inductive Ev | report (r : Rec) (now : Int) | flush (now : Int)
 
 def ev? (s : String) : Option Ev :=
@@ -134,6 +180,21 @@ def handle : List String → Option (List String)
       let ix ← list? idx? index
       let lt ← if latest == "-" then some none else (rec? latest).map some
       pure (renderStart tag mode ver ids { root := root, frontier := fr, journal := j, index := ix, latest := lt })
+    some (r.getD [s!"#{tag} bad-op"])
+  | ["c14p", tag, ver, ids, root, frontier, journal, index, miss, seq, off, fail] =>
+    let r : Option (List String) := do
+      let ver ← Hex.decode ver
+      let ids ← hexList? ids
+      let root ← root? root
+      let fr ← snap? frontier
+      let j ← list? jrec? journal
+      let ix ← list? idx? index
+      let miss ← if miss == "-" then some [] else Hex.decode miss
+      let seq ← seq.toInt?
+      let off ← off.toInt?
+      let fail ← fail.toNat?
+      pure (renderProc tag ver ids { root := root, frontier := fr, journal := j, index := ix }
+        { miss := miss, seq := seq, off := off } fail)
     some (r.getD [s!"#{tag} bad-op"])
   | ["c14b", tag, ids, recs] =>
     let r : Option (List String) := do
